@@ -1216,3 +1216,153 @@ Proof.
   - rewrite A2, B2. apply existsb_perm. exact H.
   - rewrite A3, B3. apply Permutation_map. exact H.
 Qed.
+
+(* ------------------------------------------------------------------ /api/counter *)
+Lemma rows_find_addrow : forall r acc k,
+  rows_find k (counter_addrow r acc) =
+  if bytes_eqb (row_key r) k
+  then Some (match rows_find (row_key r) acc with Some v => w64 (v + row_val r) | None => row_val r end)
+  else rows_find k acc.
+Proof.
+  intros r. induction acc as [|x acc IH]; intro k.
+  - simpl. destruct (bytes_eqb (row_key r) k); reflexivity.
+  - destruct r as [[[t c] n] v]. destruct x as [[[t' c'] n'] v'].
+    unfold counter_addrow; fold counter_addrow.
+    change (bytes_eqb (t ++ colon ++ c ++ colon ++ n) (t' ++ colon ++ c' ++ colon ++ n'))
+      with (bytes_eqb (row_key (t, c, n, v)) (row_key (t', c', n', v'))).
+    assert (forall z, row_key (t', c', n', z) = row_key (t', c', n', v')) as Hkz by reflexivity.
+    destruct (bytes_eqb (row_key (t, c, n, v)) (row_key (t', c', n', v'))) eqn:E.
+    + apply beq_eq in E. unfold rows_find; fold rows_find. rewrite (Hkz (w64 (v' + v))). rewrite <- E. rewrite beq_refl.
+      destruct (bytes_eqb (row_key (t, c, n, v)) k); reflexivity.
+    + unfold rows_find; fold rows_find. rewrite IH.
+      assert (bytes_eqb (row_key (t', c', n', v')) (row_key (t, c, n, v)) = false) as E'.
+      { apply beq_false. intro H. apply beq_false in E. apply E. symmetry. exact H. }
+      rewrite E'.
+      destruct (bytes_eqb (row_key (t', c', n', v')) k) eqn:E2.
+      * apply beq_eq in E2. subst k. rewrite E. reflexivity.
+      * reflexivity.
+Qed.
+
+Definition row_step (ov : option Z) (r : row) : option Z :=
+  Some (match ov with Some v => w64 (v + row_val r) | None => row_val r end).
+
+Lemma rows_find_fold : forall rows acc k,
+  rows_find k (fold_left (fun acc r => counter_addrow r acc) rows acc) =
+  fold_left row_step (filter (fun r => bytes_eqb (row_key r) k) rows) (rows_find k acc).
+Proof.
+  induction rows as [|r rows IH]; intros acc k; simpl. reflexivity.
+  rewrite IH, rows_find_addrow. destruct (bytes_eqb (row_key r) k) eqn:E; simpl.
+  - apply beq_eq in E. subst k. reflexivity.
+  - reflexivity.
+Qed.
+
+Lemma row_step_fold_some : forall rows v, fold_left row_step rows (Some v) = Some (fold_left (fun a r => w64 (a + row_val r)) rows v).
+Proof. induction rows as [|r rows IH]; intro v; simpl. reflexivity. apply IH. Qed.
+
+(* each row of /api/counter carries the (int64) sum of the message counts reported under its
+   topic:channel:node key *)
+Theorem counter_rows_sum : forall rows k,
+  (forall r, In r rows -> in_i64 (row_val r)) ->
+  let mine := filter (fun r => bytes_eqb (row_key r) k) rows in
+  match rows_find k (counter_fold rows) with
+  | None => mine = []
+  | Some v => mine <> [] /\ v = w64 (sumZ (map row_val mine))
+  end.
+Proof.
+  intros rows k Hr. cbv zeta. unfold counter_fold. rewrite rows_find_fold. simpl rows_find.
+  destruct (filter (fun r => bytes_eqb (row_key r) k) rows) as [|x xs] eqn:Ef. reflexivity.
+  simpl fold_left. unfold row_step at 2. rewrite row_step_fold_some. split. discriminate.
+  assert (in_i64 (row_val x)) as Hx.
+  { apply Hr. assert (In x (x :: xs)) as Hi by (left; reflexivity). rewrite <- Ef in Hi. apply filter_In in Hi. tauto. }
+  rewrite <- (w64_id (row_val x) Hx) at 1.
+  rewrite (fold_left_map _ _ _ (fun a v => w64 (a + v)) row_val).
+  rewrite fold_w64_sum. reflexivity.
+Qed.
+
+(* ... and the rows fed into that fold are, up to order, one per (node, topic, channel) entry *)
+Definition entry_row_kv (e : centry) : bytes * Z := (entry_key3 e, ch_msgs (snd e)).
+Definition row_kv (r : row) : bytes * Z := (row_key r, row_val r).
+
+Definition cm_names_ok (cm : list (bytes * cagg)) : Prop :=
+  forall k v, In (k, v) cm -> ca_topic v ++ colon ++ ca_name v = k.
+
+Lemma counter_rows_update_perm : forall cm key mk (f : cagg -> cagg) (nd : bytes * bytes * cnum),
+  (forall v, ca_topic (f v) = ca_topic v /\ ca_name (f v) = ca_name v /\ ca_nodes (f v) = ca_nodes v ++ [nd]) ->
+  cm_names_ok cm ->
+  ca_topic (mk tt) ++ colon ++ ca_name (mk tt) = key -> ca_nodes (mk tt) = [] ->
+  Permutation
+    (map row_kv (counter_rows (cmap_update key mk f cm)))
+    ((key ++ colon ++ fst (fst nd), n_msgs (snd nd)) :: map row_kv (counter_rows cm)).
+Proof.
+  induction cm as [|[k v] cm IH]; intros key mk f nd Hf Hok Hmk Hnil.
+  - simpl. destruct (Hf (mk tt)) as [F1 [F2 F3]]. rewrite F1, F2, F3, Hnil. simpl.
+    unfold row_kv, row_key, row_val. simpl. rewrite <- Hmk. rewrite <- !app_assoc. apply Permutation_refl.
+  - simpl. destruct (bytes_eqb k key) eqn:E.
+    + apply beq_eq in E. subst k.
+      assert (ca_topic v ++ colon ++ ca_name v = key) as Hk by (apply Hok; left; reflexivity).
+      unfold counter_rows. simpl. destruct (Hf v) as [F1 [F2 F3]]. rewrite F1, F2, F3. rewrite !map_app. simpl.
+      unfold row_kv at 2, row_key, row_val. simpl. rewrite <- Hk. rewrite <- !app_assoc.
+      apply Permutation_sym. apply Permutation_cons_app. apply Permutation_refl.
+    + unfold counter_rows. simpl. rewrite !map_app.
+      eapply perm_trans.
+      * apply Permutation_app_head. apply IH.
+        -- exact Hf.
+        -- intros k' v' Hi. apply Hok. right. exact Hi.
+        -- exact Hmk.
+        -- exact Hnil.
+      * apply Permutation_sym. apply Permutation_cons_app. apply Permutation_refl.
+Qed.
+
+Lemma names_ok_update : forall cm key mk (f : cagg -> cagg),
+  (forall v, ca_topic (f v) = ca_topic v /\ ca_name (f v) = ca_name v) ->
+  cm_names_ok cm -> ca_topic (mk tt) ++ colon ++ ca_name (mk tt) = key ->
+  cm_names_ok (cmap_update key mk f cm).
+Proof.
+  induction cm as [|[k v] cm IH]; intros key mk f Hf Hok Hmk k' v' Hi.
+  - simpl in Hi. destruct Hi as [Hi|[]]. inversion Hi; subst. destruct (Hf (mk tt)) as [F1 F2]. rewrite F1, F2. reflexivity.
+  - simpl in Hi. destruct (bytes_eqb k key) eqn:E.
+    + destruct Hi as [Hi|Hi].
+      * inversion Hi; subst. destruct (Hf v) as [F1 F2]. rewrite F1, F2. apply Hok. left. reflexivity.
+      * apply Hok. right. exact Hi.
+    + destruct Hi as [Hi|Hi].
+      * inversion Hi; subst. apply Hok. left. reflexivity.
+      * eapply IH; [exact Hf| |exact Hmk|exact Hi]. intros k2 v2 H2. apply Hok. right. exact H2.
+Qed.
+
+Lemma counter_rows_fold : forall es cm done,
+  cm_names_ok cm -> Permutation (map row_kv (counter_rows cm)) (map entry_row_kv done) ->
+  cm_names_ok (fold_left (entry_step []) es cm) /\
+  Permutation (map row_kv (counter_rows (fold_left (entry_step []) es cm))) (map entry_row_kv (done ++ es)).
+Proof.
+  induction es as [|e es IH]; intros cm done Hok Hp; simpl.
+  - rewrite app_nil_r. split; assumption.
+  - replace (done ++ e :: es) with ((done ++ [e]) ++ es) by (rewrite <- app_assoc; reflexivity).
+    destruct e as [[p tname] c].
+    apply IH.
+    + unfold entry_step, proc_chan. simpl. apply names_ok_update.
+      * intro v. split; reflexivity.
+      * exact Hok.
+      * reflexivity.
+    + unfold entry_step, proc_chan. simpl.
+      eapply perm_trans.
+      * apply (counter_rows_update_perm cm _ _ _ (p_addr p, p_hostname p, chan_num c)).
+        -- intro v. repeat split; reflexivity.
+        -- exact Hok.
+        -- reflexivity.
+        -- reflexivity.
+      * rewrite map_app. simpl map.
+        change (entry_row_kv (p, tname, c)) with ((tname ++ colon ++ ch_name c) ++ colon ++ p_addr p, ch_msgs c).
+        apply Permutation_cons_app. rewrite app_nil_r. exact Hp.
+Qed.
+
+(* the rows nsqadmin folds into /api/counter are, up to order, exactly one (key, count) per
+   (answering node, non-null topic, non-null channel) entry *)
+Theorem counter_rows_entries : forall ups,
+  Permutation (map row_kv (counter_rows (snd (stats_value ups [])))) (map entry_row_kv (all_entries ups [])).
+Proof.
+  intro ups. rewrite stats_value_spec. simpl snd.
+  destruct (counter_rows_fold (all_entries ups []) [] []) as [_ H].
+  - intros k v [].
+  - apply Permutation_refl.
+  - exact H.
+Qed.
